@@ -1,6 +1,655 @@
-//! C45 — not implemented yet.
-use mc_core::Ctx;
+//! C45 — WASM package validation is total and enforces the sandbox rules.
+//!
+//! Inputs (all enumerated exhaustively within the stated bounds, no sampling):
+//!  (a) structural modules from a 12-dimensional feature lattice (wasmgen.rs), built with wasm-encoder:
+//!      every pair of dimensions in full product with all other dimensions at their neutral value (so that a
+//!      single broken rule is never masked by another one), the full product of the first six dimensions,
+//!      and (thorough) every triple of the eleven small dimensions;
+//!  (b) totality: every byte string of <= 5 (thorough 6) bytes over {00,01,03,05,07,0A,0B,60,7F,FF} after the
+//!      8-byte header, every headerless string <= 3 over a 13-byte alphabet, every single-point mutation of three
+//!      valid modules (quick: 12 structural byte values per position, thorough: all 256), and deep-nesting /
+//!      huge-count modules.
+//!
+//! Oracle (from the statement): `ScryptoV1WasmValidator::validate` never panics (nor kills the process: every
+//! evaluation happens in a child process, re-exec of this binary); whenever it accepts, the *input* — parsed
+//! independently with wasmparser 0.244 — breaks none of the rules the statement names (no float, no start, one
+//! exported memory within the limit, bounded tables/functions/params/locals/globals, only permitted host
+//! imports with their signatures), and the *output* re-parses as: valid without floats, no start, one memory
+//! with a maximum <= limit exported as `memory`, imports = input imports + `env.gas:(i64)->()`, exactly one
+//! injected mutable i32 global, and every original function body = input body + injected code only, with a
+//! non-zero metering call at every function entry and loop entry and the stack-height check around every call of
+//! a function that declares locals (exports with locals go through a thunk).
+//! For lattice points the generator's own verdict (wasmgen::verdict) is cross-checked against the parsed facts.
+//! Restrictions the engine documents but the statement does not name (br_table size, blueprint export
+//! presence, post-MVP proposals, conforming modules being rejected) are informational.
+use crate::reparse::{self, Facts, Limits};
+use crate::wasmgen::{self, Lattice, NDIM};
+use mc_core::{catch, Ctx, Level, Local};
+use radix_engine::vm::wasm::*;
+use radix_engine::vm::ScryptoVmVersion;
+use radix_engine_interface::blueprints::package::PackageDefinition;
+use serde_json::{json, Map, Value};
+use std::collections::BTreeSet;
+use std::os::unix::fs::FileExt;
 
-pub fn run(_ctx: Ctx) -> ! {
-    mc_core::machinery_error("C45: not implemented")
+const BYTE_ALPHA: [u8; 10] = [0x00, 0x01, 0x03, 0x05, 0x07, 0x0A, 0x0B, 0x60, 0x7F, 0xFF];
+const RAW_ALPHA: [u8; 13] = [0x00, 0x01, 0x03, 0x05, 0x07, 0x0A, 0x0B, 0x60, 0x7F, 0xFF, 0x61, 0x73, 0x6D];
+const MUT_ALPHA_QUICK: [u8; 12] = [0x00, 0x01, 0x02, 0x03, 0x05, 0x07, 0x0A, 0x0B, 0x40, 0x60, 0x7F, 0xFF];
+const HEADER: [u8; 8] = [0x00, 0x61, 0x73, 0x6D, 0x01, 0x00, 0x00, 0x00];
+
+#[derive(Clone, Debug)]
+enum Desc {
+    Lattice([usize; NDIM]),
+    Bytes(u64),
+    Raw(u64),
+    Mut(usize, usize),
+    Extreme(usize),
+}
+
+struct Space {
+    lat: Lattice,
+    descs: Vec<Desc>,
+    n_lattice: usize,
+    n_bytes: usize,
+    n_raw: usize,
+    n_mut: usize,
+    n_extreme: usize,
+    mut_bases: Vec<Vec<u8>>,
+    mut_counts: Vec<usize>,
+    thorough: bool,
+}
+
+fn limits(v: &ScryptoV1WasmValidator) -> Limits {
+    Limits {
+        memory_pages: v.max_memory_size_in_pages as u64,
+        table_initial: v.max_initial_table_size as u64,
+        br_table_targets: v.max_number_of_br_table_targets,
+        functions: v.max_number_of_functions as u64,
+        params: v.max_number_of_function_params as usize,
+        locals: v.max_number_of_function_locals as u64,
+        globals: v.max_number_of_globals as u64,
+        stack: v.instrumenter_config.max_stack_size() as i32,
+    }
+}
+
+fn mutations_of(base: &[u8], thorough: bool) -> Vec<Vec<u8>> {
+    let mut out = vec![];
+    if thorough {
+        mc_core::gen::mutations(base, &mc_core::gen::ALL_BYTES, |m| out.push(m.to_vec()));
+    } else {
+        mc_core::gen::mutations(base, &MUT_ALPHA_QUICK, |m| out.push(m.to_vec()));
+    }
+    out
+}
+
+const N_EXTREME: usize = 14;
+
+fn extreme(k: usize, thorough: bool) -> (String, Vec<u8>) {
+    use wasm_encoder::*;
+    let deep = if thorough { 100_000 } else { 10_000 };
+    let (name, locals, body): (String, Vec<(u32, ValType)>, Vec<Instruction<'static>>) = match k {
+        0..=5 => {
+            let depth = [100usize, 1000, deep][k % 3];
+            let looped = k >= 3;
+            let mut b = vec![];
+            for _ in 0..depth {
+                b.push(if looped { Instruction::Loop(BlockType::Empty) } else { Instruction::Block(BlockType::Empty) });
+            }
+            for _ in 0..depth {
+                b.push(Instruction::End);
+            }
+            (format!("{} nested {}", depth, if looped { "loops" } else { "blocks" }), vec![], b)
+        }
+        6..=8 => {
+            let depth = [100usize, 1000, deep][k - 6];
+            let mut b = vec![];
+            for _ in 0..depth {
+                b.push(Instruction::I32Const(1));
+                b.push(Instruction::If(BlockType::Empty));
+            }
+            for _ in 0..depth {
+                b.push(Instruction::End);
+            }
+            (format!("{depth} nested ifs"), vec![], b)
+        }
+        9 => ("50000 locals".into(), vec![(50_000, ValType::I32)], vec![]),
+        10 => ("50001 locals".into(), vec![(50_001, ValType::I32)], vec![]),
+        11 => ("2^32-1 locals".into(), vec![(u32::MAX, ValType::I32)], vec![]),
+        12 => ("2^32-1 + 1 locals (two groups)".into(), vec![(u32::MAX, ValType::I32), (1, ValType::I64)], vec![]),
+        _ => {
+            // long straight-line body: operand stack height grows to `deep`
+            let mut b = vec![];
+            for _ in 0..deep {
+                b.push(Instruction::I32Const(1));
+            }
+            for _ in 0..deep {
+                b.push(Instruction::Drop);
+            }
+            (format!("operand stack {deep} deep"), vec![], b)
+        }
+    };
+    let mut m = Module::new();
+    let mut t = TypeSection::new();
+    t.ty().function(vec![ValType::I64], vec![ValType::I64]);
+    m.section(&t);
+    let mut f = FunctionSection::new();
+    f.function(0);
+    m.section(&f);
+    let mut ms = MemorySection::new();
+    ms.memory(MemoryType { minimum: 1, maximum: None, memory64: false, shared: false, page_size_log2: None });
+    m.section(&ms);
+    let mut e = ExportSection::new();
+    e.export("memory", ExportKind::Memory, 0);
+    e.export("Test_f", ExportKind::Func, 0);
+    m.section(&e);
+    let mut c = CodeSection::new();
+    let mut func = Function::new(locals);
+    for i in &body {
+        func.instruction(i);
+    }
+    func.instruction(&Instruction::LocalGet(0));
+    func.instruction(&Instruction::End);
+    c.function(&func);
+    m.section(&c);
+    (name, m.finish())
+}
+
+impl Space {
+    fn new(thorough: bool, lim: &Limits) -> Space {
+        let lat = Lattice::new(thorough);
+        let mut set: BTreeSet<[usize; NDIM]> = BTreeSet::new();
+        // every pair of dimensions, full product, others neutral
+        for i in 0..NDIM {
+            for j in (i + 1)..NDIM {
+                for vi in 0..lat.sizes[i] {
+                    for vj in 0..lat.sizes[j] {
+                        let mut d = [0usize; NDIM];
+                        d[i] = vi;
+                        d[j] = vj;
+                        set.insert(d);
+                    }
+                }
+            }
+        }
+        // full product of the first six dimensions
+        let mut d = [0usize; NDIM];
+        loop {
+            set.insert(d);
+            let mut k = 0;
+            loop {
+                if k == 6 {
+                    break;
+                }
+                d[k] += 1;
+                if d[k] < lat.sizes[k] {
+                    break;
+                }
+                d[k] = 0;
+                k += 1;
+            }
+            if k == 6 {
+                break;
+            }
+        }
+        if thorough {
+            // every triple of the small dimensions (all but the import dimension)
+            let small: Vec<usize> = (0..NDIM).filter(|x| *x != wasmgen::D_IMPORT).collect();
+            for a in 0..small.len() {
+                for b in (a + 1)..small.len() {
+                    for c in (b + 1)..small.len() {
+                        let (i, j, k) = (small[a], small[b], small[c]);
+                        for vi in 1..lat.sizes[i] {
+                            for vj in 1..lat.sizes[j] {
+                                for vk in 1..lat.sizes[k] {
+                                    let mut d = [0usize; NDIM];
+                                    d[i] = vi;
+                                    d[j] = vj;
+                                    d[k] = vk;
+                                    set.insert(d);
+                                }
+                            }
+                        }
+                    }
+                }
+            }
+        }
+        let mut descs: Vec<Desc> = set.into_iter().map(Desc::Lattice).collect();
+        let n_lattice = descs.len();
+        let n_bytes = mc_core::gen::count_upto(BYTE_ALPHA.len() as u64, if thorough { 6 } else { 5 }) as usize;
+        for i in 0..n_bytes {
+            descs.push(Desc::Bytes(i as u64));
+        }
+        let n_raw = mc_core::gen::count_upto(RAW_ALPHA.len() as u64, 3) as usize;
+        for i in 0..n_raw {
+            descs.push(Desc::Raw(i as u64));
+        }
+        // mutation bases: a minimal valid package, the neutral lattice module, a richer accepted lattice module
+        let minimal = crate::c47::compile_checked(
+            r#"(module (memory (export "memory") 1) (func (export "Test_f") (param i64) (result i64) (local.get 0)))"#,
+        );
+        let neutral = wasmgen::build(&lat, &[0; NDIM], lim);
+        let mut rich = [0usize; NDIM];
+        rich[wasmgen::D_TABLE] = 2;
+        rich[wasmgen::D_FEATURE] = 1;
+        rich[wasmgen::D_MEM] = 1;
+        rich[wasmgen::D_IMPORT] = 1 + 8 * lat.sig_variants; // object_call, right signature
+        let rich = wasmgen::build(&lat, &rich, lim);
+        let mut_bases = vec![minimal, neutral, rich];
+        let mut mut_counts = vec![];
+        let mut n_mut = 0;
+        for (b, base) in mut_bases.iter().enumerate() {
+            let n = mutations_of(base, thorough).len();
+            mut_counts.push(n);
+            for o in 0..n {
+                descs.push(Desc::Mut(b, o));
+            }
+            n_mut += n;
+        }
+        for k in 0..N_EXTREME {
+            descs.push(Desc::Extreme(k));
+        }
+        Space { lat, descs, n_lattice, n_bytes, n_raw, n_mut, n_extreme: N_EXTREME, mut_bases, mut_counts, thorough }
+    }
+
+    fn describe(&self, d: &Desc, bytes: Option<&[u8]>) -> Value {
+        let mut v = match d {
+            Desc::Lattice(dims) => json!({"family": "lattice", "dims": dims.to_vec(), "non_neutral": self.lat.describe(dims)}),
+            Desc::Bytes(i) => json!({"family": "header+bytes", "index": i}),
+            Desc::Raw(i) => json!({"family": "raw-bytes", "index": i}),
+            Desc::Mut(b, o) => {
+                let base = ["minimal", "neutral-lattice", "rich-lattice"][*b];
+                json!({"family": "mutation", "base": base, "ordinal": o})
+            }
+            Desc::Extreme(k) => json!({"family": "extreme", "k": k, "what": extreme(*k, self.thorough).0}),
+        };
+        if let Some(b) = bytes {
+            if b.len() <= 2048 {
+                v["input_hex"] = json!(mc_core::hex(b));
+            }
+            v["input_len"] = json!(b.len());
+        }
+        v
+    }
+}
+
+fn err_class(e: &PrepareError) -> String {
+    match e {
+        PrepareError::InvalidImport(i) => format!(
+            "InvalidImport::{}",
+            match i {
+                InvalidImport::ImportNotAllowed(_) => "ImportNotAllowed",
+                InvalidImport::ProtocolVersionMismatch { .. } => "ProtocolVersionMismatch",
+                InvalidImport::InvalidFunctionType(_) => "InvalidFunctionType",
+            }
+        ),
+        PrepareError::InvalidMemory(m) => format!("InvalidMemory::{m:?}"),
+        PrepareError::InvalidTable(t) => format!("InvalidTable::{t:?}"),
+        other => {
+            let s = format!("{other:?}");
+            s.split(|c: char| c == '(' || c == '{' || c == ' ').next().unwrap_or("").to_string()
+        }
+    }
+}
+
+#[derive(Default)]
+struct Cn {
+    structurally_valid: u64,
+    accepted: u64,
+    accepted_output_checked: u64,
+    rule_breaking_valid_rejected: u64,
+    conforming_rejected: u64,
+}
+
+struct Evaluator {
+    validator: ScryptoV1WasmValidator,
+    pkg: PackageDefinition,
+    lim: Limits,
+}
+
+impl Evaluator {
+    fn new() -> Evaluator {
+        let validator = ScryptoV1WasmValidator::new(ScryptoVmVersion::latest());
+        let lim = limits(&validator);
+        Evaluator { validator, pkg: PackageDefinition::new_single_function_test_definition("Test", "f"), lim }
+    }
+
+    fn eval(&self, space: &Space, d: &Desc, bytes: &[u8], l: &mut Local, cn: &mut Cn) {
+        l.eval();
+        let r = catch(|| self.validator.validate(bytes, self.pkg.blueprints.values()));
+        let case = || space.describe(d, Some(bytes));
+        let r = match r {
+            Err(p) => {
+                let loc = mc_core::last_panic_location();
+                let site = loc.rsplit('/').next().unwrap_or("").to_string();
+                l.violation(format!("panic@{site}"), format!("validate panicked: {p} at {loc}"), case());
+                l.class("panicked");
+                return;
+            }
+            Ok(r) => r,
+        };
+        let facts: Result<Facts, String> = reparse::facts(bytes);
+        let valid_any = facts.is_ok() && reparse::validates(bytes, wasmparser::WasmFeatures::all()).is_ok();
+        if valid_any {
+            cn.structurally_valid += 1;
+        }
+        let lattice_verdict = if let Desc::Lattice(dims) = d { Some(wasmgen::verdict(&space.lat, dims, &self.lim)) } else { None };
+        // generator self-check: the lattice verdict and the independently parsed facts must tell the same story
+        if let (Some(v), Ok(f)) = (&lattice_verdict, &facts) {
+            let mut a: Vec<&str> = v.must_reject.clone();
+            let mut b: Vec<&str> = reparse::rule_breaks(f, &self.lim);
+            a.sort();
+            a.dedup();
+            b.sort();
+            b.dedup();
+            if a != b {
+                mc_core::machinery_error(&format!("C45 generator self-check failed: lattice verdict {a:?} but parsed facts say {b:?} for {}", case()));
+            }
+        } else if lattice_verdict.is_some() {
+            mc_core::machinery_error(&format!("C45 generator self-check failed: lattice module is not parseable: {:?} {}", facts.as_ref().err(), case()));
+        }
+        match r {
+            Err(e) => {
+                let c = err_class(&e);
+                l.class(&format!("rejected: {c}"));
+                if let Ok(f) = &facts {
+                    let breaks = reparse::rule_breaks(f, &self.lim);
+                    let silent_l = lattice_verdict.as_ref().map(|v| v.silent.clone()).unwrap_or_default();
+                    let silent = reparse::silent_breaks(f, &self.lim);
+                    if valid_any && !breaks.is_empty() {
+                        cn.rule_breaking_valid_rejected += 1;
+                    }
+                    if breaks.is_empty() && silent.is_empty() && silent_l.is_empty() && reparse::validates(bytes, reparse::strict_features()).is_ok() {
+                        // conforming by everything this harness knows; the statement does not demand acceptance
+                        if lattice_verdict.is_some() {
+                            cn.conforming_rejected += 1;
+                            l.info(&format!("conforming lattice module rejected ({c}) — statement-silent"));
+                            l.sample(|| json!({"conforming_rejected": case(), "error": format!("{e:?}")}));
+                        } else {
+                            l.info(&format!("rule-conforming input rejected ({c}) — statement-silent"));
+                        }
+                    }
+                }
+            }
+            Ok((out, _exports)) => {
+                cn.accepted += 1;
+                l.class("accepted");
+                let f = match &facts {
+                    Ok(f) => f,
+                    Err(e) => {
+                        l.violation("accepted:unparseable", format!("accepted input that the independent parser rejects: {e}"), case());
+                        return;
+                    }
+                };
+                let breaks = reparse::rule_breaks(f, &self.lim);
+                for b in &breaks {
+                    l.violation(format!("accepted:{b}"), format!("validate accepted a module that breaks the rule `{b}` (all broken rules: {breaks:?})"), case());
+                }
+                if let Some(v) = &lattice_verdict {
+                    for s in &v.silent {
+                        l.info(&format!("accepted although `{s}` (statement-silent)"));
+                    }
+                }
+                for s in reparse::silent_breaks(f, &self.lim) {
+                    l.info(&format!("accepted although `{s}` (statement-silent)"));
+                }
+                if reparse::validates(bytes, reparse::strict_features()).is_err() {
+                    l.info("accepted input is not valid under MVP+mutable-global+sign-extension (statement-silent)");
+                }
+                if !breaks.is_empty() {
+                    return;
+                }
+                let bad = reparse::check_output(f, &out, &self.lim);
+                if bad.is_empty() {
+                    cn.accepted_output_checked += 1;
+                    l.sample(|| json!({"accepted": case(), "output_len": out.len()}));
+                }
+                for (k, dsc) in bad {
+                    let mut c = case();
+                    if out.len() <= 4096 {
+                        c["output_hex"] = json!(mc_core::hex(&out));
+                    }
+                    l.violation(k, dsc, c);
+                }
+            }
+        }
+    }
+}
+
+fn materialize(space: &Space, d: &Desc, lim: &Limits, muts: &mut Vec<Option<Vec<Vec<u8>>>>) -> Vec<u8> {
+    match d {
+        Desc::Lattice(dims) => wasmgen::build(&space.lat, dims, lim),
+        Desc::Bytes(i) => {
+            let mut tail = vec![];
+            mc_core::gen::nth_string(&BYTE_ALPHA, *i, &mut tail);
+            let mut v = HEADER.to_vec();
+            v.extend(tail);
+            v
+        }
+        Desc::Raw(i) => {
+            let mut v = vec![];
+            mc_core::gen::nth_string(&RAW_ALPHA, *i, &mut v);
+            v
+        }
+        Desc::Mut(b, o) => {
+            if muts[*b].is_none() {
+                muts[*b] = Some(mutations_of(&space.mut_bases[*b], space.thorough));
+            }
+            muts[*b].as_ref().unwrap()[*o].clone()
+        }
+        Desc::Extreme(k) => extreme(*k, space.thorough).1,
+    }
+}
+
+fn local_to_json(l: &Local, cn: &Cn) -> Value {
+    json!({
+        "evals": l.evals,
+        "classes": l.classes,
+        "infos": l.infos,
+        "violations": l.violations.iter().map(|v| json!({"key": v.key, "what": v.what, "case": v.case})).collect::<Vec<_>>(),
+        "samples": l.samples,
+        "cn": [cn.structurally_valid, cn.accepted, cn.accepted_output_checked, cn.rule_breaking_valid_rejected, cn.conforming_rejected],
+    })
+}
+
+fn json_to_local(v: &Value, cn: &mut Cn) -> Local {
+    let mut l = Local::new();
+    l.evals = v["evals"].as_u64().unwrap_or(0);
+    if let Some(m) = v["classes"].as_object() {
+        for (k, n) in m {
+            l.classes.insert(k.clone(), n.as_u64().unwrap_or(0));
+        }
+    }
+    if let Some(m) = v["infos"].as_object() {
+        for (k, n) in m {
+            l.infos.insert(k.clone(), n.as_u64().unwrap_or(0));
+        }
+    }
+    if let Some(a) = v["violations"].as_array() {
+        for x in a {
+            l.violation(x["key"].as_str().unwrap_or(""), x["what"].as_str().unwrap_or(""), x["case"].clone());
+        }
+    }
+    if let Some(a) = v["samples"].as_array() {
+        for s in a.iter().take(3) {
+            let s = s.clone();
+            l.sample(|| s);
+        }
+    }
+    if let Some(a) = v["cn"].as_array() {
+        let g = |i: usize| a.get(i).and_then(|x| x.as_u64()).unwrap_or(0);
+        cn.structurally_valid += g(0);
+        cn.accepted += g(1);
+        cn.accepted_output_checked += g(2);
+        cn.rule_breaking_valid_rejected += g(3);
+        cn.conforming_rejected += g(4);
+    }
+    l
+}
+
+/// child: evaluate the indexes i ≡ k (mod t), skipping `skip`, writing the current index before each evaluation
+fn child_main(ctx: &Ctx, spec: &str) -> ! {
+    let parts: Vec<&str> = spec.split('/').collect();
+    let k: usize = parts[0].parse().unwrap_or(0);
+    let t: usize = parts[1].parse().unwrap_or(1);
+    let skip: BTreeSet<usize> = parts.get(2).map(|s| s.split(',').filter_map(|x| x.parse().ok()).collect()).unwrap_or_default();
+    let prefix = std::env::var("MC_C45_OUT").unwrap_or_else(|_| mc_core::machinery_error("child without MC_C45_OUT"));
+    let ev = Evaluator::new();
+    let space = Space::new(!ctx.quick(), &ev.lim);
+    let progress = std::fs::OpenOptions::new().create(true).write(true).truncate(true).open(format!("{prefix}.progress")).unwrap_or_else(|e| mc_core::machinery_error(&format!("progress file: {e}")));
+    let mut l = Local::new();
+    let mut cn = Cn::default();
+    let mut muts: Vec<Option<Vec<Vec<u8>>>> = vec![None; space.mut_bases.len()];
+    let mut i = k;
+    while i < space.descs.len() {
+        if !skip.contains(&i) {
+            let _ = progress.write_at(format!("{i:>20}").as_bytes(), 0);
+            let d = &space.descs[i];
+            let bytes = materialize(&space, d, &ev.lim, &mut muts);
+            ev.eval(&space, d, &bytes, &mut l, &mut cn);
+        }
+        i += t;
+    }
+    let _ = progress.write_at(format!("{:>20}", "done").as_bytes(), 0);
+    std::fs::write(format!("{prefix}.result"), serde_json::to_string(&local_to_json(&l, &cn)).unwrap()).unwrap_or_else(|e| mc_core::machinery_error(&format!("result file: {e}")));
+    std::process::exit(0)
+}
+
+pub fn run(ctx: Ctx) -> ! {
+    if let Ok(spec) = std::env::var("MC_C45_CHILD") {
+        child_main(&ctx, &spec);
+    }
+    let ev = Evaluator::new();
+    let space = Space::new(!ctx.quick(), &ev.lim);
+    let mut cn = Cn::default();
+
+    if let Some(case) = ctx.read_replay_case() {
+        // replay in-process: the input is either carried as hex or rebuilt from the lattice point
+        let bytes = if let Some(h) = case["input_hex"].as_str() {
+            mc_core::unhex(h)
+        } else if let Some(d) = case["dims"].as_array() {
+            let mut dims = [0usize; NDIM];
+            for (i, x) in d.iter().enumerate().take(NDIM) {
+                dims[i] = x.as_u64().unwrap_or(0) as usize;
+            }
+            wasmgen::build(&space.lat, &dims, &ev.lim)
+        } else if case["family"] == "extreme" {
+            extreme(case["k"].as_u64().unwrap_or(0) as usize, !ctx.quick()).1
+        } else {
+            mc_core::machinery_error("replay case carries neither input_hex nor dims")
+        };
+        let d = if let Some(d) = case["dims"].as_array() {
+            let mut dims = [0usize; NDIM];
+            for (i, x) in d.iter().enumerate().take(NDIM) {
+                dims[i] = x.as_u64().unwrap_or(0) as usize;
+            }
+            Desc::Lattice(dims)
+        } else {
+            Desc::Raw(0)
+        };
+        let mut l = Local::new();
+        ev.eval(&space, &d, &bytes, &mut l, &mut cn);
+        for v in &l.violations {
+            println!("REPLAY: {} :: {}", v.key, v.what);
+        }
+        if l.violations.is_empty() {
+            println!("REPLAY: no violation reproduced; classes {:?}", l.classes);
+        }
+        ctx.merge(l);
+        ctx.finish(Level::Exploration, "replay", 0, false, Map::new(), &[]);
+    }
+
+    // parent: T single-threaded children, each in its own process so that a stack overflow / abort inside the
+    // validator is an observation, not the end of the harness
+    let t = ctx.threads.max(1);
+    let exe = std::env::current_exe().unwrap_or_else(|e| mc_core::machinery_error(&format!("current_exe: {e}")));
+    let dir = ctx.scratch_dir("children");
+    let tier = if ctx.quick() { "quick" } else { "thorough" };
+    let mut exhaustive = true;
+    let mut killed = 0u64;
+    let results: Vec<(Vec<usize>, Option<Value>, bool)> = std::thread::scope(|s| {
+        let hs: Vec<_> = (0..t)
+            .map(|k| {
+                let exe = exe.clone();
+                let prefix = dir.join(format!("child{k}")).to_string_lossy().to_string();
+                s.spawn(move || {
+                    let mut skip: Vec<usize> = vec![];
+                    loop {
+                        let _ = std::fs::remove_file(format!("{prefix}.result"));
+                        let spec = format!("{k}/{t}/{}", skip.iter().map(|x| x.to_string()).collect::<Vec<_>>().join(","));
+                        let st = std::process::Command::new(&exe)
+                            .args(["C45", tier])
+                            .env("MC_C45_CHILD", &spec)
+                            .env("MC_C45_OUT", &prefix)
+                            .stdout(std::process::Stdio::null())
+                            .stderr(std::process::Stdio::piped())
+                            .output();
+                        let ok = matches!(&st, Ok(o) if o.status.success());
+                        if ok {
+                            let txt = std::fs::read_to_string(format!("{prefix}.result")).unwrap_or_default();
+                            return (skip, serde_json::from_str::<Value>(&txt).ok(), true);
+                        }
+                        // exit code 2 of a child = harness trouble inside the child: propagate as machinery error
+                        if let Ok(o) = &st {
+                            if o.status.code() == Some(2) {
+                                let e = String::from_utf8_lossy(&o.stderr).to_string();
+                                mc_core::machinery_error(&format!("C45 child {k} reported a machinery error: {}", mc_core::truncate(&e, 1500)));
+                            }
+                        }
+                        let p = std::fs::read_to_string(format!("{prefix}.progress")).unwrap_or_default();
+                        match p.trim().parse::<usize>() {
+                            Ok(i) if skip.len() < 3 => skip.push(i),
+                            _ => return (skip, None, false),
+                        }
+                    }
+                })
+            })
+            .collect();
+        hs.into_iter().map(|h| h.join().unwrap_or_else(|_| mc_core::machinery_error("supervisor thread panicked"))).collect()
+    });
+    for (skip, res, complete) in results {
+        for i in skip {
+            killed += 1;
+            let d = &space.descs[i];
+            let mut muts: Vec<Option<Vec<Vec<u8>>>> = vec![None; space.mut_bases.len()];
+            let bytes = materialize(&space, d, &ev.lim, &mut muts);
+            ctx.violation("process-killed", "the process evaluating this input died (stack overflow / abort / signal) instead of returning", space.describe(d, Some(&bytes)));
+            ctx.class("process killed", 1);
+        }
+        match res {
+            Some(v) => ctx.merge(json_to_local(&v, &mut cn)),
+            None => exhaustive = false,
+        }
+        if !complete {
+            exhaustive = false;
+            ctx.note("a child process could not complete its shard (more than 3 process-killing inputs or unreadable result)");
+        }
+    }
+    let mut cov = Map::new();
+    cov.insert("lattice_modules".into(), json!(space.n_lattice));
+    cov.insert("lattice_dimension_sizes".into(), json!(space.lat.sizes.iter().zip(wasmgen::DIM_NAMES.iter()).map(|(s, n)| format!("{n}={s}")).collect::<Vec<_>>()));
+    cov.insert("header_plus_byte_strings".into(), json!(space.n_bytes));
+    cov.insert("raw_byte_strings".into(), json!(space.n_raw));
+    cov.insert("single_point_mutations".into(), json!(space.n_mut));
+    cov.insert("mutation_bases_len".into(), json!(space.mut_bases.iter().map(|b| b.len()).collect::<Vec<_>>()));
+    cov.insert("mutations_per_base".into(), json!(space.mut_counts));
+    cov.insert("extreme_modules".into(), json!(space.n_extreme));
+    cov.insert("accepted".into(), json!(cn.accepted));
+    cov.insert("accepted_and_output_structurally_verified".into(), json!(cn.accepted_output_checked));
+    cov.insert("rule_breaking_but_valid_wasm_rejected".into(), json!(cn.rule_breaking_valid_rejected));
+    cov.insert("conforming_lattice_modules_rejected".into(), json!(cn.conforming_rejected));
+    cov.insert("processes_killed".into(), json!(killed));
+    cov.insert("child_processes".into(), json!(t));
+    ctx.finish(
+        Level::Exploration,
+        "inputs that are structurally valid WASM for the independent parser (got past deserialization/validation and reached the sandbox rules)",
+        cn.structurally_valid,
+        exhaustive,
+        cov,
+        &[
+            "limits are read from the validator's public configuration fields; the list of permitted host imports and their signatures is written from scrypto/src/engine/wasm_api.rs",
+            "the statement demands nothing about rejecting/accepting conforming modules, br_table size, blueprint exports or post-MVP proposals: informational",
+            "metering is checked at function and loop entries only (placement elsewhere is the instrumenter's choice); zero-weight first instructions (end/else/unreachable/return) need no charge",
+            "ScryptoVmVersion::latest() only",
+        ],
+    )
 }
